@@ -16,7 +16,9 @@ RULE = ('one case = one tape history: 1..4 files (data via PRINT#/WRITE#, ASCII 
         'reopened in fresh Sessions and read with INPUT$ / LINE INPUT# / LOAD / BLOAD in several orders, including '
         'searches that fail (name not on the tape, file behind the head) followed by further reads, data files '
         'closed after a partial read (k bytes or lines, k from 0 to the whole file) followed by the next / another '
-        'file, and reads after writes in the same Session; '
+        'file, reads after writes in the same Session, and cassette statements (OPEN of a second file in each mode, '
+        'SAVE / SAVE,A / SAVE,P / BSAVE / LOAD / MERGE / BLOAD) that must be refused while a data file is open for '
+        'output or for input, followed by more I/O on the open file; '
         'non-trivial = at least one file has a non-empty content')
 EXPLANATION = ('theorems (PcbV.Props.C29): text and binary record framing round trip for every content, search finds the '
                'first matching file, skips the others, returns exactly its bytes and leaves the tape at the next '
@@ -35,6 +37,21 @@ ASSUMPTIONS = ['bit level abstracted: leader/sync/trailer delimit records, CAS b
 TOKENS = {0: 'D', 1: 'M', 0x20: 'P', 0xa0: 'P', 0x40: 'A', 0x80: 'B'}
 READ_TYPES = {'D': b'D', 'A': b'ABP', 'B': b'ABP', 'P': b'ABP', 'M': b'M'}
 MISSING_NAME = b'~nope~'
+REFUSED_NAME = b'~busy~'
+# statement -> what it asks of the tape (open for output of a type / search for types)
+REFUSED = {
+    'openo': (b'OPEN M$ FOR OUTPUT AS 2', ('ow', 'D')),
+    'opena': (b'OPEN M$ FOR APPEND AS 2', ('ow', 'D')),
+    'openi': (b'OPEN M$ FOR INPUT AS 2', ('or', b'D')),
+    'save': (b'SAVE M$', ('ow', 'B')),
+    'savea': (b'SAVE M$,A', ('ow', 'A')),
+    'savep': (b'SAVE M$,P', ('ow', 'P')),
+    'bsave': (b'BSAVE M$,0,16', ('ow', 'M')),
+    'load': (b'LOAD M$', ('or', b'ABP')),
+    'merge': (b'MERGE M$', ('or', b'A')),
+    'bload': (b'BLOAD M$', ('or', b'M')),
+}
+REFUSED_KINDS = sorted(REFUSED)
 VIDEO_SEG = 0xb800
 # text page 1 (not the visible page: console output never lands there)
 SAVE_OFFS = 4096
@@ -270,6 +287,14 @@ def make_file(rng, typ, length, used):
         f['pieces'] = [[k, hx(p)] for k, p in pieces]
         f['read'] = 'lineinput' if lined and rng.random() < 0.7 else 'input$'
         f['chunk'] = rng.choice([255, 255, 1, 7, 100, 254]) if length <= 300 else rng.choice([255, 255, 100, 254])
+        # cassette statements that are refused while this file is open (for output / for input)
+        if rng.random() < 0.3:
+            f['refused'] = sorted([rng.randint(0, len(pieces)), rng.choice(REFUSED_KINDS)]
+                                  for _ in range(rng.randint(1, 2)))
+        if f['read'] == 'input$' and length and rng.random() < 0.3:
+            nchunks = (length + f['chunk'] - 1) // f['chunk']
+            f['refused_read'] = sorted([rng.randrange(min(nchunks, 4)), rng.choice(REFUSED_KINDS)]
+                                       for _ in range(rng.randint(1, 2)))
     elif typ == 'A':
         # listing: "<k> REM<tail>" + CR  -> cost = len(str(k)) + 4 + len(tail) + 1
         f['lines'] = [hx(l) for l in gen_program(rng, length, True, 0)]
@@ -337,6 +362,22 @@ class Tape(object):
                 data += self.session.get_variable('A$')
             return data
 
+    # ---- statements that must be refused while a cassette file is open
+
+    def refuse(self, kind, where):
+        """Issue one cassette statement that has to fail with File already open; returns (model op, reply word)."""
+        stmt, op = REFUSED[kind]
+        self.session.set_variable('M$', b'CAS1:' + REFUSED_NAME)
+        out = self.ex(stmt)
+        _, err = parse_msgs(out)
+        self.ctx.count('refused:%s:%s' % (where, kind))
+        if err != 55:
+            self.problems.append(('refused:%s' % kind, '%s while a cassette file is open for %s: expected File already '
+                                  'open, got %r' % (stmt.decode(), where, out)))
+        if op[0] == 'ow':
+            return 'ow,%s,%d,0,0,0' % (hx(REFUSED_NAME), ord(op[1])), ('e%s' % err if err else 'ow')
+        return 'or,%s,%s' % (hx(REFUSED_NAME), hx(op[1])), 'or:' + (',e%s' % err if err else '')
+
     # ---- writing
 
     def write_file(self, f):
@@ -348,7 +389,15 @@ class Tape(object):
         if typ == 'D':
             content = data_content([(k, unhx(p)) for k, p in f['pieces']])
             out = self.ex(b'OPEN N$ FOR OUTPUT AS 1')
-            for kind, payload in f['pieces']:
+            refused = []
+            todo = f.get('refused', [])
+            for j, (kind, payload) in enumerate(f['pieces'] + [['end', '-']]):
+                # statements refused while this file is open for output; it must not notice
+                for at, rk in todo:
+                    if at == j or (kind == 'end' and at > j):
+                        refused.append(self.refuse(rk, 'output'))
+                if kind == 'end':
+                    break
                 s.set_variable('A$', unhx(payload))
                 out += self.ex({'raw': b'PRINT#1,A$;', 'line': b'PRINT#1,A$', 'write': b'WRITE#1,A$'}[kind])
             out += self.ex(b'CLOSE 1')
@@ -395,8 +444,10 @@ class Tape(object):
         self.ctx.count('write:' + typ)
         self.ctx.count('len%%255=%d' % (len(content) % 255) if len(content) % 255 in (0, 1, 164, 253, 254)
                        else 'len%255=other')
-        self.ops += ['ow,%s,%d,%d,%d,%d' % (hx(name), ord(typ), seg, offs, len(payload)), 'w,' + hx(payload), 'c']
-        self.outs += ['ow', 'w', 'c'] if not out.strip() else ['e:' + repr(out), 'w', 'c']
+        refused = refused if typ == 'D' else []
+        self.ops += (['ow,%s,%d,%d,%d,%d' % (hx(name), ord(typ), seg, offs, len(payload))] + [r[0] for r in refused]
+                     + ['w,' + hx(payload), 'c'])
+        self.outs += [('ow' if not out.strip() else 'e:' + repr(out))] + [r[1] for r in refused] + ['w', 'c']
         if out.strip():
             self.problems.append(('write', 'writing file %r (%s, %d bytes) printed %r' % (name, typ, len(content), out)))
         # what the statement promises to find on the tape
@@ -436,6 +487,7 @@ class Tape(object):
             out = self.ex(b'OPEN N$ FOR INPUT AS 1')
             msgs, err = parse_msgs(out)
             if not err:
+                self.refused_now = []
                 data, note = self.read_data(self.spec['files'][target], len(tw['content']))
                 self.ex(b'CLOSE 1')
         elif typ in 'ABP':
@@ -473,9 +525,11 @@ class Tape(object):
             word += ',e%s' % err
         self.outs.append(word)
         if data is not None:
-            self.ops += ['ra', 'c']
+            refused = getattr(self, 'refused_now', []) if typ == 'D' else []
+            self.refused_now = []
+            self.ops += [r[0] for r in refused] + ['ra', 'c']
             shown = tw['payload'] if (tw['type'] == 'P' and data == tw['content']) else data
-            self.outs += ['d' + hx(shown) + note, 'c']
+            self.outs += [r[1] for r in refused] + ['d' + hx(shown) + note, 'c']
         # ---- oracle (from the statement)
         label = '%s file %d %r (%d bytes)' % (typ, idx, unhx(f['name']), len(w['content']))
         if [(a, b, c) for a, b, c in msgs] != exp_msgs or err:
@@ -616,7 +670,14 @@ class Tape(object):
             return data, note
         chunk = f['chunk']
         left = expect
+        todo = list(f.get('refused_read', []))
+        nread = 0
         while left > 0:
+            # statements refused while this file is open for input; it must not notice
+            for at, rk in todo:
+                if at == nread:
+                    self.refused_now.append(self.refuse(rk, 'input'))
+            nread += 1
             self.ex(b'E%=EOF(1)')
             if s.get_variable('E%') != 0:
                 note = '!short'
@@ -950,7 +1011,23 @@ def crafted(ctx):
         check_spec(ctx, {'fmt': fmt, 'files': files, 'phases': [4],
                          'reads': [[1, 3], [3], [0, 1, 2, 3], [['miss', 'D'], 1, ['back', 0], ['miss', 'M'], 3]]}, batch)
     partial_family(ctx, batch)
+    refused_family(ctx, batch)
     flush_batch(ctx, batch)
+
+
+def refused_family(ctx, batch):
+    """Every refusable cassette statement while a data file is open for output and while it is open for input,
+    followed by more I/O on the open file and a full read-back."""
+    kinds = REFUSED_KINDS
+    pieces = [['line', hx(b'LINE %02d %s' % (i, b'abcdefghij' * 3))] for i in range(len(kinds) + 2)]
+    n = sum(len(unhx(p)) + 1 for _, p in pieces)
+    for fmt, ks in (('cas', kinds), ('wav', ['bsave', 'save'])):
+        busy = {'name': hx(b'BUSY'), 'type': 'D', 'target': n, 'pieces': pieces, 'read': 'input$', 'chunk': 40,
+                'refused': [[i + 1, k] for i, k in enumerate(ks)],
+                'refused_read': [[i + 1, k] for i, k in enumerate(ks)]}
+        other = {'name': hx(b'OTHER'), 'type': 'D', 'target': 6, 'pieces': [['line', hx(b'other')]],
+                 'read': 'lineinput', 'chunk': 255}
+        check_spec(ctx, {'fmt': fmt, 'files': [busy, other], 'phases': [2], 'reads': [[0, 1], [1]]}, batch)
 
 
 def partial_family(ctx, batch):
